@@ -22,7 +22,8 @@ RULE = ('family = one generated pipeline containing at least one random stage '
         'variants repeat one order; ordered is False exactly with a reshuffling stage; '
         'vars() of every stage and of its copy agree. Non-trivial = an adversary step '
         'fired between two variant steps; distinct = distinct (pipeline, op list).')
-PROBES = ['frozen_copy_of_live_dataset', 'one_generator_shared_by_stages',
+PROBES = ['copy_of_every_dataset_subclass_with_non_default_parameters',
+          'frozen_copy_of_live_dataset', 'one_generator_shared_by_stages',
           'adversary_step_inside_an_epoch', 'prefetch_pool_variant_ran',
           'prefetch_single_variant_ran', 'random_stage_below_other_stages']
 BUDGET = {
@@ -82,7 +83,104 @@ def gen_desc(rng):
     raise RuntimeError('no random pipeline generated')
 
 
+PARAM_CLASSES = ['catch', 'prefetch', 'parmap', 'batch', 'cache', 'bucket', 'local',
+                 'reshuffle', 'slice', 'filter', 'map', 'zip', 'keyzip', 'concat',
+                 'intersperse', 'items', 'unbatch', 'apply', 'profile', 'dict', 'list']
+
+
+def build_param_instance(kind, r):
+    """One stage of class `kind` with non-default parameters drawn from r."""
+    import lazy_dataset
+    n = r.randrange(2, 6)
+    base = lazy_dataset.new({'k%d' % i: {'src': i} for i in range(n)})
+    other = lazy_dataset.new({'k%d' % i: {'src': 100 + i} for i in range(n)})
+    if kind == 'catch':
+        return ldc.CatchExceptionDataset(base, exceptions=r.choice(
+            [(ValueError, KeyError), ValueError, (W.InjectedError,)]), warn=r.random() < 0.7)
+    if kind == 'prefetch':
+        w = r.randrange(1, 4)
+        return ldc.PrefetchDataset(base, w, w + r.randrange(0, 5), backend=r.choice(['t', 'mp', 'dill_mp']),
+                                   catch_filter_exception=r.choice([True, (ValueError,), False]))
+    if kind == 'parmap':
+        w = r.randrange(1, 4)
+        return ldc.ParMapDataset(W.MapFn('p'), base, num_workers=w,
+                                 buffer_size=w + r.randrange(0, 9), backend=r.choice(['t', 'mp']))
+    if kind == 'batch':
+        return ldc.BatchDataset(base, r.randrange(1, 5), drop_last=r.random() < 0.7)
+    if kind == 'cache':
+        return ldc.CacheDataset(base, keep_mem_free=r.choice(['3 GB', '1GiB', 12345]))
+    if kind == 'bucket':
+        return ldc.DynamicBucketDataset(
+            base, ldc.DynamicTimeSeriesBucket, expiration=r.randrange(1, 6),
+            max_buffered_examples=r.randrange(2, 9), drop_incomplete=r.random() < 0.6,
+            sort_key=W.KeyFn('sk'), reverse_sort=r.random() < 0.6, batch_size=r.randrange(1, 4),
+            len_key=W.KeyFn('lk'), max_padding_rate=r.choice([0.1, 0.3, 0.7]),
+            max_total_size=r.choice([None, 7, 20]))
+    if kind == 'local':
+        return ldc.LocalShuffleDataset(base, buffer_size=r.randrange(1, 9),
+                                       rng=np.random.RandomState(r.randrange(99)))
+    if kind == 'reshuffle':
+        return ldc.ReShuffleDataset(base, rng=np.random.RandomState(r.randrange(99)))
+    if kind == 'slice':
+        return base[[r.randrange(n) for _ in range(r.randrange(1, 5))]]
+    if kind == 'filter':
+        return ldc.FilterDataset(W.FilterFn('f', 2, 0), base)
+    if kind == 'map':
+        return ldc.MapDataset(W.MapFn('m'), base)
+    if kind == 'zip':
+        return ldc.ZipDataset(base, other, base)
+    if kind == 'keyzip':
+        return ldc.KeyZipDataset(base, base.map(W.MapFn('kz')))
+    if kind == 'concat':
+        return ldc.ConcatenateDataset(base, other, base)
+    if kind == 'intersperse':
+        return ldc.IntersperseDataset(base, other)
+    if kind == 'items':
+        return ldc.ItemsDataset(base)
+    if kind == 'unbatch':
+        return ldc.UnbatchDataset(base.batch(2))
+    if kind == 'apply':
+        return ldc.ApplyDataset(W.ApplyShuffle(r.randrange(99)), base)
+    if kind == 'profile':
+        return ldc.ProfilingDataset(base.map(W.MapFn('pm')))
+    if kind == 'dict':
+        return ldc.DictDataset({'a': 1, 'b': 2}, name='nm%d' % r.randrange(9))
+    if kind == 'list':
+        return ldc.ListDataset([1, 2, 3], name='nm%d' % r.randrange(9))
+    raise ValueError(kind)
+
+
+def run_params(case):
+    import random
+    import warnings
+    r = random.Random(case['pseed'])
+    W.set_ctx(W.Ctx())
+    violations = []
+    try:
+        with warnings.catch_warnings():
+            warnings.simplefilter('ignore')
+            ds = build_param_instance(case['kind'], r)
+            msg = compare_copy(ds)
+            if msg is None:
+                # a copy of the copy, and a stage above it, must be faithful too
+                msg = compare_copy(ds.copy())
+    finally:
+        W.set_ctx(None)
+    if msg:
+        violations.append(hist.viol(
+            'copy_not_faithful', 'copy_not_faithful:' + msg.split('.copy()')[0]
+            + ':' + (msg.split("'")[1] if "'" in msg else ''), msg))
+    return hist.outcome(case, nontrivial=True, key=hist.hkey(case), violations=violations,
+                        fired={'mode_params': 1, 'class_' + case['kind']: 1},
+                        probes={'copy_of_every_dataset_subclass_with_non_default_parameters': 1},
+                        stats={}, sample={'case': case}, digest_extra=None)
+
+
 def gen(rng, tier, index):
+    if index % 10 == 9:
+        # copy() of every Dataset subclass with non-default parameters
+        return [{'mode': 'params', 'kind': k, 'pseed': rng.randrange(1 << 30)}
+                for k in PARAM_CLASSES]
     desc, a = gen_desc(rng)
     if sum(1 for s in desc['stages'] if s['op'] in RANDOM_OPS + ('shuffle',)) >= 2 \
             and rng.random() < 0.5 and not any(s['op'] == 'apply' for s in desc['stages']):
@@ -218,6 +316,8 @@ def compare_copy(ds):
 
 
 def run(case):
+    if case.get('mode') == 'params':
+        return run_params(case)
     desc = case['desc']
     E = case['epochs']
     st = np.random.get_state()
@@ -375,6 +475,9 @@ def run(case):
 
 
 def shrink(case):
+    if case.get('mode') == 'params':
+        return
+
     def fix(c):
         return c
     yield from hist.shrink_ops(case, 'ops', fix)
